@@ -135,7 +135,7 @@ class Check:
         self.cov = dict(evaluations=0, distinct_nontrivial=0, rule='', samples=[], traces_validated_against_impl=0)
         self.notes = []
         self.assumptions = []
-        self.known = [k for k in load_known_findings() if k['property'] == pid]
+        self.known = [k for k in load_known_findings() if k['property'] == pid or pid in k.get('also_seen_by', [])]
         self.distinct = set()
 
     # ---- bookkeeping
